@@ -133,10 +133,12 @@ def wallet_history(job):
         keys = own_keys()
         spendable = w.utxos()
         fee = rng.choice([None, None, 2000, 5000, 100000, 'low', 'high'])
-        minconf = rng.choice([0, 1, 1])
+        minconf = rng.choice([0, 1, 1, 2, 5])
         broadcast = rng.random() < 0.6
         if force[0] in ('spend_most', 'spend_most_unsent'):
             kind_, fee, minconf, broadcast = 'send_to', rng.choice([2000, 5000, 100000]), 0, force[0] == 'spend_most'
+        if force[0] == 'send_minconf':
+            kind_, fee, minconf, nchange = 'send_to', None, rng.choice([4, 5]), 0
         inkeys = []
         nchange = rng.choice([1, 1, 0, 2, 3])
         total = sum(u['value'] for u in spendable)
@@ -149,6 +151,8 @@ def wallet_history(job):
                 amount = rng.choice([600, 1500, 19000, 20000, 100000, 500000, max(1000, total // 2), max(1000, total - 3000), total, total + 1000])
                 if force[0] in ('spend_most', 'spend_most_unsent'):
                     amount = max(1000, total - fee - rng.choice([0, 100, 900, 1500, 30000]))
+                if force[0] == 'send_minconf':
+                    amount = rng.choice([160000, 200000, 250000])
                 to = rng.choice(EXT + [rng.choice(keys).address]) if keys else EXT[0]
                 if rng.random() < 0.2 and keys:
                     k = rng.choice(keys)
@@ -219,19 +223,21 @@ def wallet_history(job):
     elif sc < 0.52:
         # the funding transaction of a spent output is deleted and the output is reported again
         plan = ['key', 'add', 'add', 'spend_most', 'delete_funding', 'update_all', 'tx']
+    elif sc < 0.70:
+        plan = ['key', 'add_old', 'add_old', 'add_young', 'send_minconf', 'send_minconf']
     force = [None]
     for step in range(nops):
         r = rng.random()
         forced = plan[step] if step < len(plan) else None
         if forced == 'key':
             r = 0.0
-        elif forced == 'add':
+        elif forced in ('add', 'add_old', 'add_young'):
             r = 0.2
         elif forced == 'update_all':
             r = 0.40
         elif forced == 'delete_funding':
             r = 0.75
-        elif forced in ('tx', 'spend_most', 'spend_most_unsent'):
+        elif forced in ('tx', 'spend_most', 'spend_most_unsent', 'send_minconf'):
             r = 0.5
         force[0] = forced
         try:
@@ -251,7 +257,11 @@ def wallet_history(job):
                 if any(x[0] == txid and x[1] == n for x in reports):
                     continue
                 v = rng.choice(VALUES)
-                conf = rng.choice([0, 1, 10])
+                conf = rng.choice([0, 1, 3, 10])
+                if force[0] == 'add_old':
+                    txid, n, v, conf = newtxid(), 0, 150000, 10
+                elif force[0] == 'add_young':
+                    txid, n, v, conf = newtxid(), 0, rng.choice([3000000, 40000000]), rng.choice([1, 2, 3])
                 for x in reports:                   # confirmations belong to the transaction: one count per txid
                     if x[0] == txid:
                         conf = x[5]
